@@ -1,7 +1,10 @@
 package eio
 
 import (
+	"net/http"
+
 	"github.com/karagenc/socket.io-go/engine.io/parser"
+	"github.com/karagenc/socket.io-go/engine.io/transport"
 )
 
 // verifRecClient is a recording client transport: every Send call is one batch.
@@ -22,3 +25,34 @@ func (t *verifRecClient) Send(packets ...*parser.Packet) {
 }
 func (t *verifRecClient) Discard() { t.discard++ }
 func (t *verifRecClient) Close()   { t.closed++ }
+
+// verifRecServerTransport is a recording server transport.
+type verifRecServerTransport struct {
+	name     string
+	sent     []*parser.Packet
+	closed   int
+	discards int
+	queued   []*parser.Packet
+}
+
+func (t *verifRecServerTransport) Name() string {
+	if t.name == "" {
+		return "rec"
+	}
+	return t.name
+}
+func (t *verifRecServerTransport) Handshake(p *parser.Packet, w http.ResponseWriter, r *http.Request) (string, error) {
+	return "", nil
+}
+func (t *verifRecServerTransport) PostHandshake(p *parser.Packet)                 {}
+func (t *verifRecServerTransport) ServeHTTP(w http.ResponseWriter, r *http.Request) {}
+func (t *verifRecServerTransport) QueuedPackets() []*parser.Packet {
+	q := t.queued
+	t.queued = nil
+	return q
+}
+func (t *verifRecServerTransport) Send(p ...*parser.Packet) { t.sent = append(t.sent, p...) }
+func (t *verifRecServerTransport) Discard()                 { t.discards++ }
+func (t *verifRecServerTransport) Close()                   { t.closed++ }
+
+func verifCallbacks() *transport.Callbacks { return transport.NewCallbacks() }
